@@ -60,8 +60,9 @@ Shapes == << [rle |-> << <<V(7, 0), 5>> >>, order |-> "asc"],                   
              [rle |-> << <<V(1, 0), 1>>, <<V(2, 0), 1>> >>, order |-> "asc"],                    \* n = 2
              [rle |-> << <<V(-5, -10), 2>>, <<V(11, -10), 1>> >>, order |-> "asc"] >>            \* n = 3
 \* (17 825 793 = 2^24 + 2^20 + 1 observations: beyond the integers a f32 can count)
-BigNs == IF Thorough THEN <<1001, 5001, 50001, 99998, 100000, 100001, 100002, 250000, 1000000, 17825793>>
-         ELSE <<1001, 100000, 100001, 250000, 17825793>>
+\* (4096, 65536: whole multiples of the block sizes a chunked implementation would choose)
+BigNs == IF Thorough THEN <<1001, 4096, 5001, 8192, 50001, 65536, 99998, 100000, 100001, 100002, 250000, 1000000, 17825793>>
+         ELSE <<1001, 4096, 65536, 100000, 100001, 250000, 17825793>>
 C01Part(d) ==
   /\ \A i \in 1..ND :
        LET n == Pick(i, 11, 2, 301)  data == RandSample(i, n, Offsets[Pick(i, 12, 1, 4)], Exps[Pick(i, 13, 1, 3)])
@@ -164,6 +165,15 @@ C04Part(d) ==
              /\ (si = 1) => Emit(TwoCase("unpaired", ty, "ci", FlipK[ki], li, db, da, FALSE, "exchange") @@ [fam |-> fam])
 
 \* unpaired samples at very small / very large magnitudes (no absolute thresholds in the formula)
+\* f32 observations of about 10^10 .. 10^12: the squares of s^2/n leave the float range.  The documented outcome there is
+\* InvalidInputData; an interval is admitted too, but then it has to be the right one (samples of unequal size, both orders)
+OverflowUnpaired(d) ==
+  \A i \in 1..2 : \A li \in {8, 12} : \A ki \in 1..3 :
+     LET da == RandSample(7400 + i, 30, 0, 0) @@ [scale |-> [p |-> 30]]
+         db == RandSample(7500 + i, 4 + i, 40, 0) @@ [scale |-> [p |-> 30]] IN
+     /\ Emit(TwoCase("unpaired", "f32", "ci", ki, li, da, db, TRUE, "base") @@ [fam |-> 2, ovf |-> TRUE])
+     /\ Emit(TwoCase("unpaired", "f32", "ci", ki, li, db, da, TRUE, "base") @@ [fam |-> 2, ovf |-> TRUE])
+
 ScaledUnpaired(d) ==
   \A i \in 1..3 : \A ty \in {"f64", "f32"} : \A sc \in (IF ty = "f64" THEN {-60, -30, 40} ELSE {-16, 12}) :
      LET na == Pick(400 + i, 31, 3, 40)  nb == Pick(400 + i, 32, 3, 40)
@@ -225,6 +235,10 @@ C05Part(d) ==
   /\ \A i \in 1..2 : \A ty \in {"f64", "f32"} : \A fl \in {"geo"} : \A li \in {8, 12} : \A ki \in 1..3 :
        LET data == PosSample(950 + i, 12 + i, 0) @@ [scale |-> [p |-> IF ty = "f64" THEN -1060 ELSE -140]] IN
        Emit(MeanCase(fl, ty, "ci", ki, li, data, TRUE, "base") @@ [aux |-> TRUE, subnormal |-> TRUE])
+  \* the value 1 itself (its logarithm and its reciprocal are special), and the smallest admissible sample
+  /\ \A fl \in {"geo", "harm"} : \A ty \in {"f64", "f32"} : \A li \in {8, 12} : \A ki \in 1..3 :
+       /\ Emit(MeanCase(fl, ty, "ci", ki, li, [rle |-> << <<V(1, -1), 1>>, <<V(1, 0), 2>>, <<V(2, 0), 1>>, <<V(4, 0), 1>> >>, order |-> "interleave"], TRUE, "base") @@ [aux |-> TRUE])
+       /\ Emit(MeanCase(fl, ty, "append", ki, li, [rle |-> << <<V(1, 0), 1>>, <<V(3, 0), 1>> >>, order |-> "asc"], TRUE, "base") @@ [aux |-> TRUE])
   \* near-constant and wide samples
   /\ \A fl \in {"geo", "harm"} : \A ty \in {"f64", "f32"} : \A li \in Levs : \A ki \in 1..3 :
        /\ Emit(MeanCase(fl, ty, "ci", ki, li, [rle |-> << <<V(1000, 0), 9>>, <<V(1001, 0), 8>> >>, order |-> "asc"], TRUE, "base") @@ [aux |-> TRUE])
@@ -242,7 +256,7 @@ FoldData(k, n) ==
                    order |-> "interleave"]                                          \* +x, -x alternating: partial states whose sum is exactly 0
       [] OTHER -> [rle |-> << <<V(-13421773, -24), n \div 3>>, <<V(11184811, -25), n \div 3>>, <<V(-7, 0), n - 2 * (n \div 3)>> >>,
                    order |-> "interleave"]                                          \* mixed signs, negative total
-FoldNs == IF Thorough THEN <<1000, 20000, 300000, 1000000>> ELSE <<1000, 20000, 300000>>
+FoldNs == IF Thorough THEN <<1000, 8192, 20000, 300000, 1000000>> ELSE <<1000, 8192, 20000, 300000>>
 C09FoldPart(d) ==
   \A k \in 1..4 : \A ni \in DOMAIN FoldNs : \A ty \in {"f64", "f32"} : \A li \in {8, 14} : \A ki \in 1..3 :
      \A si \in DOMAIN FoldStyles :
@@ -250,8 +264,8 @@ C09FoldPart(d) ==
 
 Next == /\ ~done
         /\ done' = TRUE
-        /\ CASE Part = "c01" -> C01Part(done) [] Part = "c06" -> (C06Part(done) /\ UnbalancedUnpaired(done) /\ C06Extreme(done) /\ C06OffGrid(done))
-             [] Part = "c04" -> (C04Part(done) /\ ScaledUnpaired(done) /\ UnbalancedUnpaired(done)) [] Part = "c05" -> C05Part(done)
+        /\ CASE Part = "c01" -> C01Part(done) [] Part = "c06" -> (C06Part(done) /\ UnbalancedUnpaired(done) /\ C06Extreme(done) /\ C06OffGrid(done) /\ OverflowUnpaired(done))
+             [] Part = "c04" -> (C04Part(done) /\ ScaledUnpaired(done) /\ UnbalancedUnpaired(done) /\ OverflowUnpaired(done)) [] Part = "c05" -> C05Part(done)
              [] Part = "designed" -> DesignedPart(done) [] Part = "c09fold" -> C09FoldPart(done)
 Spec == Init /\ [][Next]_done
 =============================================================================
